@@ -63,7 +63,7 @@ type rfGen struct {
 	enter       int64
 	retA        atomic.Int64
 	ctxEpoch    int64
-	ccStart     int64 // w.ccStart at entry
+	ccStart     int64        // w.ccStart at entry
 	delivered   atomic.Int64 // stamp at which a reference callback was first told this result (0 = never); set under the RefCount mutex
 	dCtxEpoch   atomic.Int64 // w.ctxEpoch / w.zeroEpoch at that moment
 	dZeroEpoch  atomic.Int64
@@ -90,17 +90,17 @@ type rfHolder struct {
 }
 
 type rfWorld struct {
-	c         *mon.Case
-	rc        *refcount.RefCount[*rfVal]
-	target    *ccontainer.CContainer[*rfVal]
-	targetErr *ccontainer.CContainer[*error]
-	keepUnref bool
-	sameValue bool
-	shared    *rfVal
-	active    atomic.Int64
-	ctxEpoch  atomic.Int64
-	ccStart   atomic.Int64 // SetContext(fresh context) calls started (such a call always replaces the context)
-	endingCase atomic.Bool // the case is winding down: references are released and the context cleared without bookkeeping
+	c          *mon.Case
+	rc         *refcount.RefCount[*rfVal]
+	target     *ccontainer.CContainer[*rfVal]
+	targetErr  *ccontainer.CContainer[*error]
+	keepUnref  bool
+	sameValue  bool
+	shared     *rfVal
+	active     atomic.Int64
+	ctxEpoch   atomic.Int64
+	ccStart    atomic.Int64 // SetContext(fresh context) calls started (such a call always replaces the context)
+	endingCase atomic.Bool  // the case is winding down: references are released and the context cleared without bookkeeping
 	// heldCount is a lower bound of the references the library knows (incremented after AddRef returned,
 	// decremented before Release is called); zeroEpoch counts how often it reached zero
 	heldCount atomic.Int64
